@@ -54,7 +54,8 @@ Verdict(st, c) ==
     IF (c.fail \/ c.soft) # st.raised THEN <<"raised", c.fail \/ c.soft>>
     ELSE IF Strip(c.dlog, Len(dlog)) # st.dlog THEN <<"deliveries", Strip(c.dlog, Len(dlog))>>
     ELSE IF New(c.elog, Len(elog)) # st.elog THEN <<"emissions", New(c.elog, Len(elog))>>
-    ELSE IF \E n \in 1 .. Len(prog) : c.nst[n] # FixState(prog[n], st.nst[n]) THEN <<"node_state", c.nst>>
+    \* (st.opq: nodes whose private state the adapter could not read -- not compared)
+    ELSE IF \E n \in 1 .. Len(prog) : n \notin ToSet(st.opq) /\ c.nst[n] # FixState(prog[n], st.nst[n]) THEN <<"node_state", c.nst>>
     ELSE IF c.downs # st.downs THEN <<"links", c.downs>>
     ELSE IF \E t \in Tags : c.rc[t] # st.rc[t + 1] THEN <<"refcounts", [i \in 1 .. Len(st.rc) |-> c.rc[i - 1]]>>
     ELSE IF c.cbs # st.cbs THEN <<"callbacks", c.cbs>>
